@@ -2,6 +2,7 @@
 C11 — GROUP BY yields one row per group with correct count, distinct count and sum.
 -/
 import BW.Proofs.QueryPost
+import BW.Proofs.HooksHead
 
 namespace BW.Props.C11
 open BW.Model BW.Proofs.QueryPost
@@ -41,6 +42,13 @@ theorem sum_two_ints (S : Strs) (fa : Nat → Nat → Nat) (b a : Bytes) (x y : 
   have h1 : toInt64 (x + y) = x + y := by unfold toInt64; omega
   simp [aggregate, Row.get, List.foldlM, bind, Except.bind, pure, Except.pure, h0, h1]
 
+/-- GROUP BY means what it says: the keys the semantic hook (`groupByBindings`) collects are the bindings
+    listed, in order; `GROUP`, `BY` and the commas change nothing. -/
+theorem group_by_means_its_tokens (gs : List Bytes) (h : BW.Model.Hooks.Head) :
+    (BW.Proofs.HooksHead.tk .other :: BW.Proofs.HooksHead.tk .other :: BW.Proofs.HooksHead.commaToks gs).foldl BW.Model.Hooks.groupStep h
+      = { h with groupBy := h.groupBy ++ gs } :=
+  BW.Proofs.HooksHead.group_by_denote gs h
+
 /-! Non-vacuity -/
 example : (gather { pred := fun _ => [], time := fun _ => [], lit := fun _ => [] } [[63]] [[([63], Cell.str [1])], [([63], Cell.str [2])], [([63], Cell.str [1])]]).length = 2 := by decide
 
@@ -52,3 +60,4 @@ end BW.Props.C11
 #print axioms BW.Props.C11.count_distinct_correct
 #print axioms BW.Props.C11.empty_group_by
 #print axioms BW.Props.C11.sum_two_ints
+#print axioms BW.Props.C11.group_by_means_its_tokens
